@@ -289,17 +289,15 @@ theorem leaf_agree (ss : Schemas) :
       split
       · rename_i kd v0 c0 m0
         simp only [faultsAt] at hf
-        split at hf
-        · simp at hf
-        · cases j with
-          | null => simp [Json.isNull] at hj
-          | obj kvs =>
-            simp only at hf ⊢
-            refine agree_map _ (mapRes_key_agree (elem_agree ?_) kvs fs hf)
-            intro x l hx hl
-            obtain ⟨fuel', rt', _, hr', hf'⟩ := strictFaults_ok_inv hl
-            exact ih e rt' k fuel' _ x l hleaf hr' hx hf'
-          | _ => simp at hf; subst hf; exact wrongType_agree_err
+        cases j with
+        | null => simp [Json.isNull] at hj
+        | obj kvs =>
+          simp only at hf ⊢
+          refine agree_map _ (mapRes_key_agree (elem_agree ?_) kvs fs hf)
+          intro x l hx hl
+          obtain ⟨fuel', rt', _, hr', hf'⟩ := strictFaults_ok_inv hl
+          exact ih e rt' k fuel' _ x l hleaf hr' hx hf'
+        | _ => simp at hf; subst hf; exact wrongType_agree_err
       · exact agree_unsup _ _
     | ref p nm m =>
       simp only [goDecode]
@@ -736,11 +734,9 @@ theorem sd_agree (ss : Schemas) (hU : scalarUnionsAreLeaf ss = true) :
               simp only at h ⊢
               split
               · exact agree_unsup _ _
-              · split
-                · exact agree_unsup _ _
-                · refine agree_map _ (mapRes_idx_agree (elem_agree ?_) xs 0 fs h)
-                  intro x l hx hl
-                  exact ih e x l hx hl
+              · refine agree_map _ (mapRes_idx_agree (elem_agree ?_) xs 0 fs h)
+                intro x l hx hl
+                exact ih e x l hx hl
             | _ => simp at h; subst h; exact wrongType_agree_err
         | map idx e m =>
           simp only []
@@ -749,18 +745,14 @@ theorem sd_agree (ss : Schemas) (hU : scalarUnionsAreLeaf ss = true) :
             exact leaf_agree ss _ t _ _ fuel _ j fs (mapOfKinds_leaf ss _ t hk) hres hj h
           · split
             · simp only [faultsAt] at h
-              split at h
-              · simp at h
-              · rename_i hnm
-                cases j with
-                | null => simp [Json.isNull] at hj
-                | obj kvs =>
-                  simp only at h ⊢
-                  simp only [hnm, Bool.false_and, Bool.false_eq_true, if_false]
-                  refine agree_map _ (mapRes_key_agree (elem_agree ?_) kvs fs h)
-                  intro x l hx hl
-                  exact ih e x l hx hl
-                | _ => simp at h; subst h; exact wrongType_agree_err
+              cases j with
+              | null => simp [Json.isNull] at hj
+              | obj kvs =>
+                simp only at h ⊢
+                refine agree_map _ (mapRes_key_agree (elem_agree ?_) kvs fs h)
+                intro x l hx hl
+                exact ih e x l hx hl
+              | _ => simp at h; subst h; exact wrongType_agree_err
             · exact agree_unsup _ _
         | struct fields g gi sm =>
           simp only []
